@@ -53,6 +53,7 @@ type Result struct {
 	Exhaustive   bool           `json:"exhaustive"`
 	Notes        []string       `json:"notes"`
 	InternalErrs []string       `json:"internal_errors"`
+	GenStale     []string       `json:"generator_stale"` // generated "sentences" the model does not read as generated: an internal error unless the grammar file was edited
 	WallS        float64        `json:"wall_s"`
 }
 
@@ -180,6 +181,13 @@ func (c *Ctx) internal(msg string) {
 	}
 }
 
+func (c *Ctx) genStale(msg string) {
+	c.count("generator_disagrees_with_model")
+	if len(c.Res.GenStale) < 10 {
+		c.Res.GenStale = append(c.Res.GenStale, msg)
+	}
+}
+
 func (c *Ctx) full() bool { return len(c.Res.Violations) >= c.maxViol }
 
 var checks = map[string]func(*Ctx){}
@@ -201,7 +209,7 @@ func main() {
 		return
 	}
 	start := time.Now()
-	res := &Result{Property: *prop, Tier: *tier, Seed: *seed, Dist: map[string]int{}, Samples: []interface{}{}, Violations: []Violation{}, Keyed: []Violation{}, KeyedCounts: map[string]int{}, ModelDiffs: []Violation{}, Notes: []string{}, InternalErrs: []string{}}
+	res := &Result{Property: *prop, Tier: *tier, Seed: *seed, Dist: map[string]int{}, Samples: []interface{}{}, Violations: []Violation{}, Keyed: []Violation{}, KeyedCounts: map[string]int{}, ModelDiffs: []Violation{}, Notes: []string{}, InternalErrs: []string{}, GenStale: []string{}}
 	ctx := &Ctx{R: NewRNG(uint64(*seed)), Res: res, Tier: *tier, seen: map[uint64]bool{}, maxViol: 5, DrvPath: *drv}
 	ctx.Self, _ = os.Executable()
 	if *factsPath != "" {
